@@ -480,7 +480,7 @@ fn exhaustive() -> Vec<Case> {
 
 pub fn run(ctx: &Ctx, rep: &Report) {
     run_enum(ctx, rep, "release-orders", &exhaustive(), true, &check);
-    run_prop(ctx, rep, "random", ctx.tier.pick(500, 10_000), &|| case(), &check);
+    run_prop(ctx, rep, "random", ctx.tier.pick(500, 100_000), &|| case(), &check);
 }
 
 pub fn replay(sub: &str, case: &serde_json::Value) -> Result<(), Fail> {
